@@ -539,6 +539,12 @@ class Interp(Engine):
             c = z3.Or(Val.is_VInt(t), Val.is_VFlt(t))
         elif ft == "jsvalue":
             c = M.is_js_value(t)
+        elif ft.startswith("tuple-of-") and ft[9:-4].isdigit() and ft.endswith("-int"):
+            # an immutable tuple of n integers (e.g. an exception handler record (frame index, catch address, stack depth))
+            n = int(ft[9:-4])
+            items = p.hread("list.items", Val.ref(t))
+            c = z3.And(Val.is_VRef(t), Val.cls(t) == CLS["tuple"], Val.ref(t) >= 0, Val.ref(t) < p.alloc0, z3.Length(items) == n,
+                       *[Val.is_VInt(items[i]) for i in range(n)])
         elif ft in CLS:
             subs = self.ct.subclasses_of(ft) if ft in self.ct.real else [ft]
             c = M.cls_in(t, subs)
@@ -1411,7 +1417,11 @@ class Interp(Engine):
             if v is None:
                 raise Unsupported(f"loop invariant refers to {n}, which is not bound at the loop head")
             args.append(v)
-        return self.truthy(self.call_func(inv, args, {}))
+        try:
+            return self.truthy(self.call_func(inv, args, {}))
+        except PyExc as e:
+            # an exception while evaluating ghost code says nothing about the real function: the invariant is ill-defined here
+            raise Unsupported(f"the loop invariant {node.name} raises {e.cls} on some state (guard its partial operations)")
 
     def havoc(self, old: SV, name):
         p = self.p
